@@ -41,6 +41,9 @@ GROUP: Dict[str, str] = {
     "JoinStepCollection_similar_dependent_joins_uuids": "Proofs/SrcTiePlanP.v",
     "JoinStepCollection_add": "Proofs/SrcTiePlanP.v",
     "ResolveComputeFrameworks_order_queue_by_trekker_order": "Proofs/SrcTieQueueP.v",
+    "LinkTrekker_order_links_by_frameworks": "Proofs/SrcTieTrekP.v",
+    "LinkTrekker_get_ordered_data": "Proofs/SrcTieTrekP.v",
+    "LinkTrekker_order_ordered_ids_by_relation": "Proofs/SrcTieReorderP.v",
 }
 # lemma -> target, to name the first lemma coqc stopped at
 LEMMA_TARGET = {
@@ -70,6 +73,12 @@ LEMMA_TARGET = {
     **{l: "ResolveComputeFrameworks_order_queue_by_trekker_order" for l in (
         "py_dd_add_iadd", "queue_loop2_src", "queue_loop5_src", "queue_loop4_src", "queue_loop3_src", "oq_step_unfold",
         "queue_loop1_src", "order_queue_by_trekker_order_src")},
+    **{l: "LinkTrekker_order_links_by_frameworks" for l in (
+        "order_add_src", "olbf_loop2_src", "olbf_loop1_src", "order_links_by_frameworks_src", "order_links_by_frameworks_model")},
+    "get_ordered_data_src": "LinkTrekker_get_ordered_data", "get_ordered_data_model": "LinkTrekker_get_ordered_data",
+    **{l: "LinkTrekker_order_ordered_ids_by_relation" for l in (
+        "zpm_mem", "zpm_len", "zpm_getitem", "zpm_set", "reorder_loop2_src", "reorder_loop2_latest", "reorder_loop3_src",
+        "reorder_loop1_src", "reorder_loop4_src", "zpm_keys", "order_ordered_ids_by_relation_src")},
 }
 
 TRUSTED = [
@@ -345,7 +354,7 @@ _CFW: List[type] = []
 
 def _cfws() -> List[type]:
     if not _CFW:
-        _CFW.extend(type(f"SrcTieCfw{i}", (), {}) for i in range(3))
+        _CFW.extend(type(f"SrcTieCfw{i}", (), {}) for i in range(4))
     return _CFW
 
 
@@ -497,6 +506,81 @@ def _space_plan(target: str) -> Dict[str, Any]:
                 "defs": f"Definition chk (c : {ty}) := match c with ((pq, orders), Some o) => "
                         "existsb (fun od => PlannerL.list_eqb_by PlannerL.pitem_eqb (PlannerL.order_queue od orders pq) o) "
                         "[PlannerA.ord_id; (fun _ l => rev l)] | _ => false end."}
+    if target.startswith("LinkTrekker_"):
+        from collections import OrderedDict
+        from mloda.core.prepare.resolve_links import LinkTrekker
+        uids = (0, 4, 8)
+        links = {u: _real_plink(u) for u in (0, 4, 8, 12)}
+
+        def trekker(data: List[Any], order: List[Any]) -> Any:
+            lt = LinkTrekker()
+            for (u, l, r), kids in data:
+                lt.data[(links[u], _cfws()[l], _cfws()[r])] = {_uu(x) for x in kids}
+            lt.order = OrderedDict((_uu(k), {_uu(x) for x in v}) for k, v in order)
+            return lt
+
+        def obs_order(lt: Any) -> Any:
+            return [[k.int - 1, _ints(v)] for k, v in lt.order.items()]
+
+        def obs_table(d: Any) -> Any:
+            return [[[k[0].uuid.int - 1, _cfws().index(k[1]), _cfws().index(k[2])], _ints(v)] for k, v in d.items()]
+        cq_key = lambda k: f"({cq_nat(k[0])}, ({cq_nat(k[1])}, {cq_nat(k[2])}))"  # noqa: E731
+        cq_amap = lambda m: cq_list(f"({cq_nat(k)}, {_nl(v)})" for k, v in m)  # noqa: E731
+        cq_tdata = lambda d: cq_list(f"({cq_key(k)}, {_nl(v)})" for k, v in d)  # noqa: E731
+        if target == "LinkTrekker_order_ordered_ids_by_relation":
+            subsets = [[u for j, u in enumerate(uids) if msk >> j & 1] for msk in range(1, 8)]
+            orders: List[List[Any]] = []
+            for n in (1, 2, 3):
+                for ks in itertools.permutations(uids, n):
+                    for vs in itertools.product(subsets, repeat=n):
+                        orders.append([[k, v] for k, v in zip(ks, vs)])
+            four = (0, 4, 8, 12)
+            for ks in itertools.permutations(four):
+                for vs in itertools.product(*[[[x] for x in four if x != k] for k in ks]):
+                    orders.append([[k, v] for k, v in zip(ks, vs)])
+
+            def real_reorder(i: dict) -> Any:
+                lt = trekker([], i["order"])
+                lt.order_ordered_ids_by_relation()
+                return obs_order(lt)
+            ty = "PlannerA.amap * option PlannerA.amap"
+            return {"inputs": [{"order": o} for o in orders], "real": real_reorder,
+                    "term": lambda i, o: f"({cq_amap(i['order'])}, {'Some ' + cq_amap(o) if isinstance(o, list) else 'None'})",
+                    "type": ty, "req": ["MV.Model.PlannerL"],
+                    "defs": f"Definition chk (c : {ty}) := match snd c with Some o => "
+                            "PlannerL.amap_exact_eqb (PlannerL.reorder_rel (fst c)) o | None => false end."}
+        pairs = [(0, 1), (1, 2), (2, 3), (1, 0), (2, 1)]
+        keys = [[u, l, r] for u in uids for l, r in pairs]
+        datas = [list(x) for x in itertools.permutations(keys, 2)] + \
+                [[[a, *p], [b, *q], [c, *w]] for a, b, c in itertools.permutations(uids) for p in pairs for q in pairs for w in pairs]
+        if target == "LinkTrekker_order_links_by_frameworks":
+            def real_olbf(i: dict) -> Any:
+                lt = trekker([[k, [20]] for k in i["data"]], i["order"])
+                lt.drop_dependency_in_case_of_circular_dependencies = lambda: None     # the callee is a parameter of the tie
+                lt.order_links_by_frameworks()
+                return obs_order(lt)
+            ty = "(list PlannerL.lkey * PlannerA.amap) * option PlannerA.amap"
+            return {"inputs": [{"data": d, "order": o} for d in datas for o in ([], [[8, [0]]])], "real": real_olbf,
+                    "term": lambda i, o: (f"(({cq_list(cq_key(k) for k in i['data'])}, {cq_amap(i['order'])}), "
+                                          f"{'Some ' + cq_amap(o) if isinstance(o, list) else 'None'})"),
+                    "type": ty, "req": ["MV.Model.PlannerL"],
+                    "defs": f"Definition chk (c : {ty}) := match c with ((ks, o0), Some o) => PlannerL.amap_exact_eqb "
+                            "(PlannerL.olbf (map (fun k => (k, [20])) ks) o0) o | _ => false end."}
+        if target == "LinkTrekker_get_ordered_data":
+            def real_god(i: dict) -> Any:
+                lt = trekker(i["data"], [])
+                r = lt.get_ordered_data()
+                return [obs_table(r), obs_order(lt)]
+            kids = [[[10], [10, 11], [12]], [[10, 11], [10], [12, 13]]]
+            ty = "PlannerL.tdata * option (PlannerL.tdata * PlannerA.amap)"
+            return {"inputs": [{"data": [[k, kd[j]] for j, k in enumerate(d)]} for d in datas for kd in kids], "real": real_god,
+                    "term": lambda i, o: (f"({cq_tdata(i['data'])}, "
+                                          + (f"Some ({cq_tdata(o[0])}, {cq_amap(o[1])})" if isinstance(o, list) else "None") + ")"),
+                    "type": ty, "req": ["MV.Model.PlannerL"],
+                    "defs": f"Definition chk (c : {ty}) := "
+                            "match PlannerL.get_ordered_data {| PlannerL.t_data := fst c; PlannerL.t_dor := []; PlannerL.t_order := [] |}, snd c with "
+                            "| PlannerL.Ok t, Some (dor, o) => PlannerL.tdata_eqb (PlannerL.t_dor t) dor && PlannerL.amap_exact_eqb (PlannerL.t_order t) o "
+                            "| PlannerL.Err _, None => true | _, _ => false end."}
     raise KeyError(target)
 
 
